@@ -2030,6 +2030,29 @@ func (w *world) storeEvent(kind, key, op string) (string, interface{}, interface
 		case "delete":
 			w.delSlice(key)
 			return "delete", old, nil, true
+		case "update-metadata": // what the EndpointSlice controller does all the time; must stay harmless
+			cur, _ := mkSlice(key, 0)
+			cur.Annotations = map[string]string{"endpoints.kubernetes.io/last-change-trigger-time": fmt.Sprint(g)}
+			cur.ResourceVersion = fmt.Sprint(g)
+			_ = w.v.Slices.Update(cur)
+			return "update", old, cur, true
+		case "relabel-away": // label-only update: the slice leaves this Service for another one, endpoints and ports unchanged
+			cur, _ := mkSlice(key, 0)
+			cur.Labels = map[string]string{"kubernetes.io/service-name": otherSvc(name)}
+			_ = w.v.Slices.Update(cur)
+			delete(w.slice, key)
+			return "update", old, cur, true
+		case "relabel-to": // label-only update: a slice of an unrelated Service joins this Service, endpoints and ports unchanged
+			was, pod := mkSlice(key, 45)
+			was.Name, pod.Name = name+"-adopted", name+"-adopted-pod"
+			was.Endpoints[0].TargetRef.Name = pod.Name
+			was.Labels = map[string]string{"kubernetes.io/service-name": "somebody-else"}
+			_ = w.v.Slices.Add(was) // it was there all along (nobody references somebody-else)
+			_ = w.v.Pods.Add(pod)
+			cur := was.DeepCopy()
+			cur.Labels = map[string]string{"kubernetes.io/service-name": name}
+			_ = w.v.Slices.Update(cur)
+			return "update", was, cur, true
 		}
 	case "policy":
 		spec := w.pols[key]
@@ -2164,6 +2187,16 @@ func configFile(resKey string) string {
 		return "stream:ts_" + parts[1] + "_" + parts[2]
 	}
 	return "config:" + parts[1] + "-" + parts[2]
+}
+
+// otherSvc: another Service name of the pool (the Service a relabelled slice moves to)
+func otherSvc(name string) string {
+	for i, n := range svcNames {
+		if n == name {
+			return svcNames[(i+1)%len(svcNames)]
+		}
+	}
+	return svcNames[0]
 }
 
 func findSvc(c *Case, key string) (SvcSpec, bool) {
@@ -2317,6 +2350,9 @@ func runEvents(c *Case, resKey string, revs []Rev) []EvObs {
 			ops = []string{"update", "delete"}
 			if r.Kind == "service" {
 				ops = append(ops, "update-irrelevant")
+			}
+			if r.Kind == "endpoints" {
+				ops = append(ops, "update-metadata", "relabel-away", "relabel-to")
 			}
 			if ok, has := usable(c, r.Kind, key); has {
 				if ok {
